@@ -8,7 +8,7 @@ for i in $(seq 1 $N); do
   git clone -q /repo $d/repo
   rsync -a --exclude 'target' --exclude 'target-*' --exclude work --exclude .git --exclude evidence /verif/ $d/verif/
   mkdir -p $d/verif/work $d/verif/evidence
-  for f in tools/vlib.py setup.sh harness/vh-common/Cargo.toml harness/vh/Cargo.toml harness-log/Cargo.toml harness-logalways/Cargo.toml harness-static/Cargo.toml; do
+  for f in tools/vlib.py setup.sh harness/vh-common/Cargo.toml harness/vh/Cargo.toml harness-log/Cargo.toml harness-logalways/Cargo.toml harness-static/Cargo.toml harness-levels/Cargo.toml tools/checks/c10.py; do
     sed -i "s|/repo|$d/repo|g" $d/verif/$f
   done
   awk -v n=$N -v k=$i 'NR % n == k % n' /tmp/rg_all.txt > $d/list.txt
@@ -19,10 +19,11 @@ for i in $(seq 1 $N); do
       checks=$(python3 - "$sd" <<'PY'
 import json,re,sys
 m=json.load(open(sys.argv[1]+"meta.json"))
-c=re.findall(r"(C\d\d) quick(?: detects|: VIOLATION)", m.get("result",""))
+groups=re.findall(r"((?:C\d\d(?:, | and | / )?)+) quick(?: detects?|: VIOLATION)", m.get("result",""))
 seen=[]
-for x in c:
-    if x not in seen: seen.append(x)
+for g in groups:
+    for x in re.findall(r"C\d\d", g):
+        if x not in seen: seen.append(x)
 print(" ".join(seen[:2] or [m["property"]]))
 PY
 )
